@@ -325,7 +325,10 @@ func runC11(seed uint64, n int, outDir string, replay string) {
 				return idx
 			}
 			// (a) crash while appending a block
-			for b, nb := 0, 2+rc.Intn(3); b < nb; b++ {
+			trimmedSeen := false
+			for b, nb := 0, 2+rc.Intn(3); b < nb || (!trimmedSeen && b < nb+16); b++ {
+				// (beyond the first few blocks the chain is extended until a block that trims old outputs has been crash-tested
+				// too: trimming is the one ledger change a block makes that no transaction of it asks for)
 				st, err := w.build()
 				if err != nil {
 					o.Violate("c07-own-block-rejected", fmt.Sprintf("%v", err))
@@ -346,6 +349,12 @@ func runC11(seed uint64, n int, outDir string, replay string) {
 				o.Count("append-schedule:" + strings.Join(compress(sched), ","))
 				want := ledgerString(X)
 				blk, inb := st.blk, st.inbound
+				if tr, _ := rawdb.ReadTrimmedUTXOs(db, blk.Hash()); len(tr) > 0 {
+					trimmedSeen = true
+					o.Count("append-crash-tested-block-trims")
+				} else if b >= nb {
+					continue
+				}
 				for _, i := range pick(len(steps), b == 0) {
 					probe("append", image, steps, i, func(nd *zoneNode) error {
 						if nd.hc.CurrentHeader().Hash() == blk.Hash() {
